@@ -245,3 +245,24 @@ PROPS["C20"] = dict(
         S("small-nosse-ts-asan", "allocfail", ["--fam", ALLFAM, "--dir", "@TMP@"], (95, 90), (950, 400), timeout=900),
     ],
 )
+
+PROPS["C18"] = dict(
+    level="fault_enumeration",
+    rule="round trip: matrices of every ncols residue mod 64 (hence mod 8) x heights x patterns x compression levels 0-9 x empty/short/long comments, owned or window "
+         "sources: file written by mzd_to_png is decoded by the harness's own zlib-based PNG decoder (chunk CRCs, IHDR, filters, bit order, comment chunk) and by "
+         "mzd_from_png, both must give the model matrix; mzd_from_str / mzd_from_jcf against strings/files generated from the model. Forged files (forge.py): "
+         "valid 1-bit gray files from an independent encoder (all 5 filter types, split IDAT, ancillary chunks) -> exact matrix; every bit depth {1,2,4,8,16} x colour "
+         "type {0,2,3,4,6} x {interlaced, not}; truncation at every chunk boundary and inside chunks; corrupted bytes with wrong and with repaired CRC; bad signature, "
+         "missing IHDR/IEND, invalid IHDR fields, absurd dimensions, too little/too much image data; JCF: index 0, positive first entry, index > ncols, too many "
+         "rows, wrong modulus, short/missing header, negative dimensions, LONG_MIN/LONG_MAX, non-numeric tokens; each file is read in a forked child under "
+         "ASan+UBSan (thorough: also memcheck); oracle: no sanitizer report / SIGSEGV for ANY file; files that cannot denote a 0/1 matrix must end in NULL or "
+         "process termination; tolerable damage may be accepted but then the matrix must be the expected one; distinct = (build, reader, corruption class, "
+         "expectation); every file case is non-trivial",
+    assumptions=["harness PNG decoder/encoder (mon_io.c, forge.py) and zlib", "libpng is not instrumented: under ASan only its memcpy-style overflows are visible; the memcheck stage closes that gap"],
+    stages=[
+        S("small-asan", "io", ["--dir", "@TMP@"], (1600, 60), (24000, 120)),
+        S("small-asan", "io", ["--dir", "@TMP@"], (0, 0), (0, 0), forge={"quick": (40, 25, 12), "thorough": (600, 300, 160)}),
+        S("small-nosse-ts-asan", "io", ["--dir", "@TMP@"], (400, 60), (4000, 120)),
+        S("small-ts-plain-vg", "io", ["--dir", "@TMP@"], (0, 0), (0, 0), forge={"quick": (6, 4, 2), "thorough": (60, 40, 25)}, valgrind=True, timeout=900),
+    ],
+)
